@@ -18,11 +18,13 @@ pub struct OpSpec {
     pub part_named_as_element: bool,
     /// body/header elements live in an imported schema file (namespace NS_T) instead of the WSDL's
     pub imported_ns: bool,
+    /// header parts bound from the same message while soap:body has NO parts attribute
+    pub headers_without_parts: bool,
 }
 
 impl OpSpec {
     pub fn simple(name: &str) -> OpSpec {
-        OpSpec { name: name.into(), output: true, in_headers: 0, out_headers: 0, explicit_parts: false, action: true, part_named_as_element: false, imported_ns: false }
+        OpSpec { name: name.into(), output: true, in_headers: 0, out_headers: 0, explicit_parts: false, action: true, part_named_as_element: false, imported_ns: false, headers_without_parts: false }
     }
     pub fn label(&self) -> String {
         format!(
@@ -34,7 +36,7 @@ impl OpSpec {
             if self.action { " soapAction" } else { "" },
             if self.part_named_as_element { " part=element-name" } else { "" },
             if self.imported_ns { " imported-ns" } else { "" }
-        )
+        ) + if self.headers_without_parts { " body-parts-absent" } else { "" }
     }
 }
 
@@ -97,7 +99,7 @@ fn add_op(s: &mut SchemaSet, o: &OpSpec) {
             out_h.push((format!("{name}Out"), pn));
         }
         out_msg = Some(format!("{name}Out"));
-        out = Some(BIo { headers: out_h, parts: if o.explicit_parts || o.out_headers > 0 { Some(pname(&resp_el)) } else { None } });
+        out = Some(BIo { headers: out_h, parts: if o.explicit_parts || (o.out_headers > 0 && !o.headers_without_parts) { Some(pname(&resp_el)) } else { None } });
     }
     if o.imported_ns {
         s.files.iter_mut().find(|f| f.name == "types.xsd").unwrap().comps.extend(new_elems);
@@ -113,7 +115,7 @@ fn add_op(s: &mut SchemaSet, o: &OpSpec) {
     w.b_ops.push(BOp {
         name: name.clone(),
         action: if o.action { Some(format!("{tns}/{name}")) } else { None },
-        input: BIo { headers: in_h, parts: if o.explicit_parts || o.in_headers > 0 { Some(pname(&req_el)) } else { None } },
+        input: BIo { headers: in_h, parts: if o.explicit_parts || (o.in_headers > 0 && !o.headers_without_parts) { Some(pname(&req_el)) } else { None } },
         output: out,
     });
 }
@@ -137,6 +139,14 @@ pub fn wsdl_states(depth2: bool) -> Vec<State> {
         prods.push((format!("output-headers={h}"), Box::new(move |o: &mut OpSpec| o.out_headers = h)));
     }
     prods.push(("parts-explicit".into(), Box::new(|o: &mut OpSpec| o.explicit_parts = true)));
+    prods.push(("input-header-bound-body-parts-absent".into(), Box::new(|o: &mut OpSpec| {
+        o.in_headers = 1;
+        o.headers_without_parts = true;
+    })));
+    prods.push(("output-headers-bound-body-parts-absent".into(), Box::new(|o: &mut OpSpec| {
+        o.out_headers = 2;
+        o.headers_without_parts = true;
+    })));
     prods.push(("no-soap-action".into(), Box::new(|o: &mut OpSpec| o.action = false)));
     prods.push(("part-named-as-element".into(), Box::new(|o: &mut OpSpec| o.part_named_as_element = true)));
     prods.push(("elements-in-imported-namespace".into(), Box::new(|o: &mut OpSpec| o.imported_ns = true)));
